@@ -10,7 +10,13 @@ from typing import Any, Dict, List, Optional
 TOK = re.compile(r'"(?:[^"]|"")*"|\|[^|]*\||\(|\)|[^\s()]+')
 
 
+import functools
+
+
+@functools.lru_cache(maxsize=200000)
 def parse(term: str):
+    """Parsed term (nested lists of tokens).  Cached: the differential evaluates the same path conditions under thousands of
+    assignments; callers never mutate the result."""
     toks = TOK.findall(term)
     pos = 0
 
@@ -29,6 +35,12 @@ def parse(term: str):
     return rd()
 
 
+_INT = re.compile(r"-?\d+")
+_REAL = re.compile(r"-?\d+\.\d*")
+_UESC = re.compile(r"\\u\{([0-9a-fA-F]+)\}")
+
+
+@functools.lru_cache(maxsize=200000)
 def _lit(tok: str):
     if tok == "true":
         return True
@@ -36,10 +48,10 @@ def _lit(tok: str):
         return False
     if tok.startswith('"'):
         s = tok[1:-1].replace('""', '"')
-        return re.sub(r"\\u\{([0-9a-fA-F]+)\}", lambda m: chr(int(m.group(1), 16)), s)
-    if re.fullmatch(r"-?\d+", tok):
+        return _UESC.sub(lambda m: chr(int(m.group(1), 16)), s)
+    if _INT.fullmatch(tok):
         return int(tok)
-    if re.fullmatch(r"-?\d+\.\d*", tok):
+    if _REAL.fullmatch(tok):
         return float(tok)
     return KeyError
 
